@@ -340,9 +340,30 @@ def _fail(r):
 
 
 def replay(path):
+    """./check C09 --replay FILE: re-run the recorded trace / program on the current tree and judge it again"""
     d = json.load(open(path))
     r = d["replay"]
-    req = r.get("harness") or {k: r[k] for k in ("op", "src", "get", "limits", "calls") if k in r}
-    out = run_harness([req])[0]
-    print(json.dumps({"key": d["key"], "what": d["what"], "now": out}, indent=1))
+    key = d.get("key")
+    if "harness" in r:
+        req = r["harness"]
+        consts = run_harness([{"op": "alloc", "f": "consts"}])[0]
+        out = run_harness([req])[0]
+        want, want_final = bookkeeping_oracle(req.get("limit"), req["events"], consts)
+        ok = "steps" in out and [(s[0], s[1]) for s in out["steps"]] == want and out["size_before_cleanup"] == want_final and out["size_final"] == 0
+        print(f"replay {key}: {json.dumps(out)[:400]}")
+    elif "src" in r:
+        req = {k: r[k] for k in ("op", "src", "get", "limits", "calls") if k in r}
+        out = run_harness([req])[0]
+        viols = ([out["inst"]["viol"]] if isinstance(out.get("inst"), dict) else []) + [str(c)[6:] for c in out.get("calls", []) if str(c).startswith("!viol")]
+        ok = _fail(out) is None and out.get("size2") == out.get("size0") == 0 and all(v == "AllocationLimitReached" for v in viols) \
+            and (out.get("inst") != "ok" or "calls" not in req or out.get("size_live") == out.get("size1"))
+        print(f"replay {key}: inst={out.get('inst')} calls={out.get('calls')} size0={out.get('size0')} size1={out.get('size1')} "
+              f"size_live={out.get('size_live')} size2={out.get('size2')}")
+    else:
+        print(f"replay {key}: nothing executable recorded ({d.get('what', '')[:200]})")
+        return 1
+    if ok:
+        print("OK property=C09 replay passes on the current tree")
+        return 0
+    print(f"VIOLATION property=C09 replay={path}")
     return 1
